@@ -17,41 +17,69 @@ Section FoldS.
       let r' := foldS r in
       match op with
       | OMul => if is_num n0 l' then ENum n0 else if is_num n0 r' then ENum n0 else EBin op l' r' p
-      | OCaret => if is_num n0 r' then ENum n1 else if is_num n0 l' then ENum n0 else EBin op l' r' p
-      | OAdd => if is_num n0 l' then r' else if is_num n0 r' then l' else EBin op l' r' p
-      | OSub => if is_num n0 r' then l' else if is_num n0 l' then EPre OSub r' else EBin op l' r' p
-      | ODiv => if is_num n1 r' then l' else EBin op l' r' p
+      | OCaret => if is_num n0 r' then ENum n1 else if is_num n0 l' && is_number r' then ENum n0 else EBin op l' r' p
+      | OAdd => if is_num n0 l' then keep_paren r' p else if is_num n0 r' then keep_paren l' p else EBin op l' r' p
+      | OSub => if is_num n0 r' then keep_paren l' p else if is_num n0 l' then EPre OSub r' else EBin op l' r' p
+      | ODiv => if is_num n1 r' then keep_paren l' p else EBin op l' r' p
       | _ => EBin op l' r' p
       end
     | _ => e
     end.
 
-  (* the second call of fold_operations in the rule 0 - r is the identity *)
-  Lemma foldS_idem : forall e : tree, foldS (foldS e) = foldS e.
+  (* normal forms: no rule applies (fold does not look inside functions, prefix and postfix nodes) *)
+  Definition rule_applies (op : oper) (l r : tree) : bool :=
+    match op with
+    | OMul | OAdd | OSub => is_num n0 l || is_num n0 r
+    | OCaret => is_num n0 r || (is_num n0 l && is_number r)
+    | ODiv => is_num n1 r
+    | _ => false
+    end.
+  Fixpoint nf (e : tree) : bool :=
+    match e with
+    | EBin op l r _ => nf l && nf r && negb (rule_applies op l r)
+    | _ => true
+    end.
+
+  Lemma nf_keep_paren e p : nf (keep_paren e p) = nf e.
+  Proof. destruct e; reflexivity. Qed.
+
+  Lemma nf_foldS : forall e : tree, nf (foldS e) = true.
   Proof.
     induction e as [x|v|c|f i IH|o v IH|o v IH|op l IHl r IHr p]; try reflexivity.
     cbn [foldS].
-    destruct op; cbn [foldS]; try (rewrite IHl, IHr; reflexivity).
-    - (* Add *)
-      destruct (is_num n0 (foldS l)) eqn:E1; [exact IHr|].
-      destruct (is_num n0 (foldS r)) eqn:E2; [exact IHl|].
-      cbn [foldS]. rewrite IHl, IHr, E1, E2. reflexivity.
-    - (* Sub *)
-      destruct (is_num n0 (foldS r)) eqn:E2; [exact IHl|].
+    destruct op; cbn [nf rule_applies]; try (rewrite IHl, IHr; reflexivity).
+    - destruct (is_num n0 (foldS l)) eqn:E1; [rewrite nf_keep_paren; exact IHr|].
+      destruct (is_num n0 (foldS r)) eqn:E2; [rewrite nf_keep_paren; exact IHl|].
+      cbn [nf rule_applies]. rewrite IHl, IHr, E1, E2. reflexivity.
+    - destruct (is_num n0 (foldS r)) eqn:E2; [rewrite nf_keep_paren; exact IHl|].
       destruct (is_num n0 (foldS l)) eqn:E1; [reflexivity|].
-      cbn [foldS]. rewrite IHl, IHr, E1, E2. reflexivity.
-    - (* Div *)
-      destruct (is_num n1 (foldS r)) eqn:E2; [exact IHl|].
-      cbn [foldS]. rewrite IHl, IHr, E2. reflexivity.
-    - (* Mul *)
-      destruct (is_num n0 (foldS l)) eqn:E1; [reflexivity|].
+      cbn [nf rule_applies]. rewrite IHl, IHr, E1, E2. reflexivity.
+    - destruct (is_num n1 (foldS r)) eqn:E2; [rewrite nf_keep_paren; exact IHl|].
+      cbn [nf rule_applies]. rewrite IHl, IHr, E2. reflexivity.
+    - destruct (is_num n0 (foldS l)) eqn:E1; [reflexivity|].
       destruct (is_num n0 (foldS r)) eqn:E2; [reflexivity|].
-      cbn [foldS]. rewrite IHl, IHr, E1, E2. reflexivity.
-    - (* Caret *)
-      destruct (is_num n0 (foldS r)) eqn:E2; [reflexivity|].
-      destruct (is_num n0 (foldS l)) eqn:E1; [reflexivity|].
-      cbn [foldS]. rewrite IHl, IHr, E1, E2. reflexivity.
+      cbn [nf rule_applies]. rewrite IHl, IHr, E1, E2. reflexivity.
+    - destruct (is_num n0 (foldS r)) eqn:E2; [reflexivity|].
+      destruct (is_num n0 (foldS l) && is_number (foldS r)) eqn:E1; [reflexivity|].
+      cbn [nf rule_applies]. rewrite IHl, IHr, E1, E2. reflexivity.
   Qed.
+
+  Lemma foldS_nf : forall e : tree, nf e = true -> foldS e = e.
+  Proof.
+    induction e as [x|v|c|f i IH|o v IH|o v IH|op l IHl r IHr p]; intros H; try reflexivity.
+    cbn [nf] in H. apply andb_prop in H as [H Hr]. apply andb_prop in H as [Hl Hrr].
+    apply negb_true_iff in Hr. cbn [foldS]. rewrite (IHl Hl), (IHr Hrr).
+    destruct op; cbn [rule_applies] in Hr; try reflexivity.
+    - apply orb_false_elim in Hr as [-> ->]. reflexivity.
+    - apply orb_false_elim in Hr as [E1 ->]. rewrite E1. reflexivity.
+    - rewrite Hr. reflexivity.
+    - apply orb_false_elim in Hr as [-> ->]. reflexivity.
+    - apply orb_false_elim in Hr as [-> ->]. reflexivity.
+  Qed.
+
+  (* the second call of fold_operations in the rule 0 - r is the identity *)
+  Lemma foldS_idem : forall e : tree, foldS (foldS e) = foldS e.
+  Proof. intros e. apply foldS_nf. apply nf_foldS. Qed.
 
   Lemma foldS_height : forall e : tree, height (foldS e) <= height e.
   Proof.
@@ -59,7 +87,7 @@ Section FoldS.
     cbn [foldS].
     destruct op; cbn [height];
       repeat match goal with |- context [if ?b then _ else _] => destruct b end;
-      cbn [height]; lia.
+      rewrite ?height_keep_paren; cbn [height]; lia.
   Qed.
 
   Lemma fold_fuel_foldS : forall n (e : tree), height e < n -> fold_fuel n e = Ok (foldS e).
@@ -119,17 +147,6 @@ Proof.
   destruct e; cbn; try discriminate. cbn [neqb RNum]. intros H. apply Reqb_true in H. subst. reflexivity.
 Qed.
 
-(* the one unsound rule is excluded by a premise: wherever fold would apply 0^_ = 0 (the base
-   folds to the number 0, the exponent does not), the exponent's value at rho is not 0.
-   fold_operations does not look inside functions, prefix and postfix nodes. *)
-Fixpoint pow_safe (e : expr R) (rho : env) : Prop :=
-  match e with
-  | EBin o l r _ =>
-    pow_safe l rho /\ pow_safe r rho /\
-    (o = OCaret -> is_num 0 (foldS l) = true -> is_num 0 (foldS r) = false -> denote r rho <> Some 0)
-  | _ => True
-  end.
-
 Lemma denote_bin_inv o l r p rho v :
   denote (EBin o l r p) rho = Some v ->
   exists a b, denote l rho = Some a /\ denote r rho = Some b /\ bin_val o a b = Some v.
@@ -142,13 +159,22 @@ Lemma denote_bin o l r p rho a b :
   denote l rho = Some a -> denote r rho = Some b -> denote (EBin o l r p) rho = bin_val o a b.
 Proof. intros Hl Hr. cbn [denote]. rewrite Hl, Hr. reflexivity. Qed.
 
+Lemma denote_keep_paren (e : expr R) p rho : denote (keep_paren e p) rho = denote e rho.
+Proof. destruct e; reflexivity. Qed.
+
+Lemma is_number_R (e : expr R) : is_number e = true -> exists y, e = ENum y.
+Proof. destruct e; cbn; try discriminate. eauto. Qed.
+
+Lemma is_num_R_false (c : R) (y : R) : is_num c (ENum y) = false -> y <> c.
+Proof. cbn. cbn [neqb RNum]. intros H. apply Reqb_false in H. exact H. Qed.
+
+(* every rule of the fold preserves the value wherever the unfolded tree has one *)
 Lemma foldS_sound : forall (e : expr R) rho v,
-  denote e rho = Some v -> pow_safe e rho -> denote (foldS e) rho = Some v.
+  denote e rho = Some v -> denote (foldS e) rho = Some v.
 Proof.
-  induction e as [x|s|c|f i IH|o s IH|o s IH|op l IHl r IHr p]; intros rho v Hd Hs; try exact Hd.
+  induction e as [x|s|c|f i IH|o s IH|o s IH|op l IHl r IHr p]; intros rho v Hd; try exact Hd.
   destruct (denote_bin_inv _ _ _ _ _ _ Hd) as (a & b & Hl & Hr & Hv).
-  destruct Hs as (Hsl & Hsr & Hpow).
-  specialize (IHl rho a Hl Hsl). specialize (IHr rho b Hr Hsr).
+  specialize (IHl rho a Hl). specialize (IHr rho b Hr).
   assert (Hkeep : denote (EBin op (foldS l) (foldS r) p) rho = Some v).
   { rewrite (denote_bin _ _ _ _ _ _ _ IHl IHr). exact Hv. }
   cbn [foldS].
@@ -156,21 +182,22 @@ Proof.
   - (* Add *)
     destruct (is_num 0 (foldS l)) eqn:E1.
     { apply is_num_R in E1. rewrite E1 in IHl. injection IHl as <-.
-      cbn in Hv. injection Hv as <-. rewrite IHr. f_equal. lra. }
+      cbn in Hv. injection Hv as <-. rewrite denote_keep_paren, IHr. f_equal. lra. }
     destruct (is_num 0 (foldS r)) eqn:E2; [|exact Hkeep].
     apply is_num_R in E2. rewrite E2 in IHr. injection IHr as <-.
-    cbn in Hv. injection Hv as <-. rewrite IHl. f_equal. lra.
+    cbn in Hv. injection Hv as <-. rewrite denote_keep_paren, IHl. f_equal. lra.
   - (* Sub *)
     destruct (is_num 0 (foldS r)) eqn:E2.
     { apply is_num_R in E2. rewrite E2 in IHr. injection IHr as <-.
-      cbn in Hv. injection Hv as <-. rewrite IHl. f_equal. lra. }
+      cbn in Hv. injection Hv as <-. rewrite denote_keep_paren, IHl. f_equal. lra. }
     destruct (is_num 0 (foldS l)) eqn:E1; [|exact Hkeep].
     apply is_num_R in E1. rewrite E1 in IHl. injection IHl as <-.
     cbn in Hv. injection Hv as <-. cbn [denote]. rewrite IHr. cbn. f_equal. lra.
   - (* Div *)
     destruct (is_num 1 (foldS r)) eqn:E2; [|exact Hkeep].
     apply is_num_R in E2. rewrite E2 in IHr. injection IHr as <-.
-    cbn in Hv. destruct (Req_EM_T 1 0); [lra|]. injection Hv as <-. rewrite IHl. f_equal. field.
+    cbn in Hv. destruct (Req_EM_T 1 0); [lra|]. injection Hv as <-.
+    rewrite denote_keep_paren, IHl. f_equal. field.
   - (* Mul *)
     destruct (is_num 0 (foldS l)) eqn:E1.
     { apply is_num_R in E1. rewrite E1 in IHl. injection IHl as <-.
@@ -182,75 +209,32 @@ Proof.
     destruct (is_num 0 (foldS r)) eqn:E2.
     { apply is_num_R in E2. rewrite E2 in IHr. injection IHr as <-.
       cbn [bin_val] in Hv. rewrite pow_val_0_r in Hv. injection Hv as <-. reflexivity. }
-    destruct (is_num 0 (foldS l)) eqn:E1; [|exact Hkeep].
-    pose proof (Hpow eq_refl eq_refl eq_refl) as Hb.
+    destruct (is_num 0 (foldS l) && is_number (foldS r)) eqn:E1; [|exact Hkeep].
+    apply andb_prop in E1 as [E1 E3].
     apply is_num_R in E1. rewrite E1 in IHl. injection IHl as <-.
+    destruct (is_number_R _ E3) as (y & Ey). rewrite Ey in E2, IHr.
+    apply is_num_R_false in E2. injection IHr as <-.
     cbn [bin_val] in Hv. cbn [denote]. f_equal. symmetry.
-    apply (pow_val_0_l b v Hv). intros ->. apply Hb. exact Hr.
-Qed.
-
-(* the simple sufficient premise: no power sub-expression is 0^0 at rho *)
-Fixpoint no_zero_pow_zero (e : expr R) (rho : env) : Prop :=
-  match e with
-  | EBin o l r _ =>
-    no_zero_pow_zero l rho /\ no_zero_pow_zero r rho /\
-    (o = OCaret -> ~ (denote l rho = Some 0 /\ denote r rho = Some 0))
-  | _ => True
-  end.
-
-Lemma no_zero_pow_zero_safe : forall e rho v,
-  denote e rho = Some v -> no_zero_pow_zero e rho -> pow_safe e rho.
-Proof.
-  induction e as [x|s|c|f i IH|o s IH|o s IH|op l IHl r IHr p]; intros rho v Hd Hs; try exact I.
-  destruct (denote_bin_inv _ _ _ _ _ _ Hd) as (a & b & Hl & Hr & Hv).
-  destruct Hs as (Hsl & Hsr & Hz).
-  pose proof (IHl rho a Hl Hsl) as Pl. pose proof (IHr rho b Hr Hsr) as Pr.
-  cbn [pow_safe]. split; [exact Pl|]. split; [exact Pr|].
-  intros Ho E1 _ Hr0. apply (Hz Ho). split; [|exact Hr0].
-  pose proof (foldS_sound l rho a Hl Pl) as Fl.
-  apply is_num_R in E1. rewrite E1 in Fl. cbn in Fl. injection Fl as <-. exact Hl.
+    apply (pow_val_0_l y v Hv E2).
 Qed.
 
 (* ---- C19 -------------------------------------------------------------------------------- *)
 Lemma c19_fold_sound_lemma : forall (e : expr R) (rho : env) (v : R),
-  denote e rho = Some v -> pow_safe e rho ->
+  denote e rho = Some v ->
   exists e', fold_operations e = Ok e' /\ denote e' rho = Some v.
 Proof.
-  intros e rho v Hd Hs. exists (foldS e). split; [apply fold_operations_foldS|].
+  intros e rho v Hd. exists (foldS e). split; [apply fold_operations_foldS|].
   apply foldS_sound; assumption.
 Qed.
 
-Lemma c19_fold_sound_no_zero_pow_zero_lemma : forall (e : expr R) (rho : env) (v : R),
-  denote e rho = Some v -> no_zero_pow_zero e rho ->
-  exists e', fold_operations e = Ok e' /\ denote e' rho = Some v.
+(* fold is idempotent: its results are normal forms *)
+Lemma c19_fold_idempotent_lemma : forall (T : Type) (NT : Num T) (e e' : expr T),
+  fold_operations e = Ok e' -> fold_operations e' = Ok e'.
 Proof.
-  intros e rho v Hd Hs. apply c19_fold_sound_lemma; [exact Hd|].
-  apply (no_zero_pow_zero_safe e rho v Hd Hs).
+  intros T NT e e' H. rewrite fold_operations_foldS in H. injection H as <-.
+  rewrite fold_operations_foldS, foldS_idem. reflexivity.
 Qed.
 
-(* fold is the identity on the value of every tree without a power: no premise at all *)
-Fixpoint no_caret (e : expr R) : Prop :=
-  match e with
-  | EBin o l r _ => o <> OCaret /\ no_caret l /\ no_caret r
-  | _ => True
-  end.
-Lemma no_caret_safe e rho : no_caret e -> pow_safe e rho.
-Proof.
-  induction e as [x|s|c|f i IH|o s IH|o s IH|op l IHl r IHr p]; intros H; try exact I.
-  destruct H as (Ho & Hl & Hr). cbn [pow_safe]. split; [auto|]. split; [auto|]. intros E. contradiction.
-Qed.
-
-(* REFUTATION of the unrestricted statement: 0^x at x = 0.  The unfolded tree has the value 1
-   (0^0 = 1, as the code's own rule _^0 = 1 has it), the folded tree is the number 0. *)
 Definition var_x : str := [120%N].
-Lemma c19_fold_refuted_lemma :
-  exists (e e' : expr R) (rho : env) (v : R),
-    denote e rho = Some v /\ fold_operations e = Ok e' /\ denote e' rho <> Some v.
-Proof.
-  exists (EBin OCaret (ENum 0) (EVar var_x) false), (ENum 0), (fun _ => 0), 1.
-  split; [|split].
-  - cbn [denote obind bin_val]. apply pow_val_0_r.
-  - rewrite fold_operations_foldS. cbn [foldS is_num n0 n1 neqb RNum].
-    destruct (Reqb 0 0) eqn:E; [reflexivity|]. apply Reqb_false in E. contradiction.
-  - cbn [denote]. intros H. injection H as H. lra.
-Qed.
+Lemma Reqb_refl (a : R) : Reqb a a = true.
+Proof. apply Reqb_true. reflexivity. Qed.
